@@ -16,7 +16,8 @@ ASSUMPTIONS = ["strict component parser mc/rp66.py", "reference model mc/model.p
 
 
 def shards(tier):
-    return [{'kind': k, 'mode': m} for k in KINDS for m in ('full', 'bare')]
+    return [{'kind': k, 'mode': m} for k in KINDS for m in ('full', 'bare')] + \
+        [{'kind': k, 'mode': 'rank2'} for k in lattice.RANK2_KINDS]
 
 
 def bound(tier, shard):
